@@ -112,3 +112,33 @@ func TestWitness_NonCIDRMaskBreaksReopen(t *testing.T) {
 		return false, ""
 	})
 }
+
+// ListBlockedSubnets hands out the *net.IPNet values the gater itself matches remotes against
+// (conngater.go: `result = append(result, ipnet)` over cg.blockedSubnets). A caller that changes a
+// listed value (masks it, converts it, re-uses it as scratch space) changes the rule in force: the
+// subnet whose BlockSubnet call returned success, and that was never unblocked, is no longer refused,
+// in memory and through every hook, until the next restart.
+func TestWitness_ListedSubnetAliasesRule(t *testing.T) {
+	kf.Witness(t, kfListAlias, func() (bool, string) {
+		g, err := conngater.NewBasicConnectionGater(nil)
+		if err != nil {
+			t.Fatal(err)
+		}
+		_, n, _ := net.ParseCIDR("10.0.0.0/8")
+		if err := g.BlockSubnet(n); err != nil {
+			t.Fatal(err)
+		}
+		if !refused(g, "10.9.9.9") {
+			return false, ""
+		}
+		listed := g.ListBlockedSubnets()
+		if len(listed) != 1 {
+			return true, fmt.Sprintf("ListBlockedSubnets returns %v", listed)
+		}
+		listed[0].IP[0] = 11 // the caller's own copy, as far as it can tell
+		if !refused(g, "10.9.9.9") {
+			return true, fmt.Sprintf("BlockSubnet(10.0.0.0/8) ok; l := ListBlockedSubnets(); l[0].IP[0] = 11: 10.9.9.9 is no longer refused (InterceptAccept allows it; now listed: %v) although 10.0.0.0/8 was never unblocked", g.ListBlockedSubnets())
+		}
+		return false, ""
+	})
+}
